@@ -374,9 +374,9 @@ impl Prop for PExpr {
         let mut o = obs.clone();
         let mut run = arr(&o["run"]);
         if run.is_empty() {
-            if obs["exit"].as_i64() == Some(0) {
-                run.push(json!([1, "P"]));
-            } else {
+            // (an output that was not there; where the expression was rejected also a success that was not)
+            run.push(json!([1, "P"]));
+            if obs["exit"].as_i64() != Some(0) && obs["diag"] == true {
                 o["exit"] = json!(0);
             }
         } else {
